@@ -19,8 +19,9 @@ func init() {
 
 func r07_1(c *Ctx, r *Report) {
 	const rule = "R07.1"
-	r.rule(rule, "Who may build. The fields of every library struct are stored only by that type's constructors (New<T>…), the builders they call (compute*, LunarYear.compute, Yun.computeStart) and the documented Set* mutators; with R09.3 (no entry point writes to pre-existing memory) this reduces 'no sequence of calls yields an invalid object' to the constructors' own checks.")
+	r.rule(rule, "Who may build. Every store to a field of a library struct is made (a) by the activation that allocated the object, (b) by an unexported builder through a parameter that at every call site is such a freshly allocated object (compute*, LunarYear.compute, Yun.computeStart — by behaviour, not by name, transitively), or (c) by a documented Set* mutator on its own receiver; with R09.3 (no entry point writes to pre-existing memory) this reduces 'no sequence of calls yields an invalid object' to the constructors' own checks.")
 	writers := map[string]map[string]bool{}
+	outside := map[string]map[string]string{}
 	for _, fn := range c.Funcs {
 		if isInit(fn) {
 			continue
@@ -38,8 +39,29 @@ func r07_1(c *Ctx, r *Report) {
 				typ := strings.SplitN(fieldKeyOf(fa), ".", 2)[0]
 				if writers[typ] == nil {
 					writers[typ] = map[string]bool{}
+					outside[typ] = map[string]string{}
 				}
 				writers[typ][fname(fn)] = true
+				why := ""
+				switch root := rootAlloc(fa.X).(type) {
+				case *ssa.Alloc:
+					// the object was allocated by this very activation: it is still under construction
+				case *ssa.Parameter:
+					idx := paramIndex(fn, root)
+					switch {
+					case idx == 0 && isDocumentedMutator(fn) && structName(fn.Signature.Recv().Type()) == typ:
+					case c.builderParam(fn, idx, map[string]bool{}):
+					default:
+						why = "stores through its parameter " + root.Name() + ", which is not always an object its caller has just allocated"
+					}
+				default:
+					if !(isDocumentedMutator(fn) && structName(fn.Signature.Recv().Type()) == typ) {
+						why = "stores through a pointer that is neither its own allocation nor a parameter under construction"
+					}
+				}
+				if why != "" {
+					outside[typ][fname(fn)] = why
+				}
 			}
 		}
 	}
@@ -50,28 +72,11 @@ func r07_1(c *Ctx, r *Report) {
 	sort.Strings(typs)
 	for _, t := range typs {
 		var bad []string
-		for w := range writers[t] {
-			fn := c.FuncBy[w]
-			okw := false
-			short := w[strings.LastIndex(w, ".")+1:]
-			switch {
-			case strings.HasPrefix(short, "New"+t):
-				okw = true
-			case fn != nil && isDocumentedMutator(fn) && structName(fn.Signature.Recv().Type()) == t:
-				okw = true
-			case t == "Lunar" && (strings.HasPrefix(short, "compute") || short == "NewLunar" || short == "NewLunarFromSolar"):
-				okw = true
-			case t == "LunarYear" && w == "calendar.(*LunarYear).compute", t == "Yun" && w == "calendar.(*Yun).computeStart":
-				okw = true
-			case t == "LunarTime" && short == "NewLunarTime", t == "Holiday" && short == "NewHoliday":
-				okw = true
-			}
-			if !okw {
-				bad = append(bad, w)
-			}
+		for w, why := range outside[t] {
+			bad = append(bad, w+" ("+why+")")
 		}
 		sort.Strings(bad)
-		r.check(len(bad) == 0, rule, "fields of "+t+" are stored only by its builders", "-", fmt.Sprintf("writers %v; not a constructor, builder or Set* mutator: %v", sortedKeys(writers[t]), bad))
+		r.check(len(bad) == 0, rule, "fields of "+t+" are stored only by its builders", "-", fmt.Sprintf("writers %v; writing to an object that is not under construction and not a Set* mutator: %v", sortedKeys(writers[t]), bad))
 	}
 	r.floor(rule, 18)
 }
@@ -236,4 +241,48 @@ func r07_4(c *Ctx, r *Report) {
 	if n == 0 {
 		r.bad(rule, "package mutexes", "-", "no package-level mutex found (undecided = fail)")
 	}
+}
+
+func paramIndex(fn *ssa.Function, p *ssa.Parameter) int {
+	for i, q := range fn.Params {
+		if q == p {
+			return i
+		}
+	}
+	return -1
+}
+
+// builderParam: fn is unexported and at every call site in the library its idx-th argument is an
+// object allocated by the calling activation, or the caller's own parameter for which the same holds.
+func (c *Ctx) builderParam(fn *ssa.Function, idx int, seen map[string]bool) bool {
+	if idx < 0 || fn.Object() == nil || fn.Object().Exported() {
+		return false
+	}
+	key := fmt.Sprintf("%s#%d", fname(fn), idx)
+	if seen[key] {
+		return true
+	}
+	seen[key] = true
+	sites := 0
+	for _, caller := range c.Funcs {
+		for _, b := range caller.Blocks {
+			for _, ins := range b.Instrs {
+				call, ok := ins.(ssa.CallInstruction)
+				if !ok || call.Common().StaticCallee() != fn || idx >= len(call.Common().Args) {
+					continue
+				}
+				sites++
+				switch a := call.Common().Args[idx].(type) {
+				case *ssa.Alloc:
+				case *ssa.Parameter:
+					if !c.builderParam(caller, paramIndex(caller, a), seen) {
+						return false
+					}
+				default:
+					return false
+				}
+			}
+		}
+	}
+	return sites > 0
 }
